@@ -79,6 +79,14 @@ func propC01(w *World, r *Report) {
 	r.Floor("searchfields", 9)
 	RunFontCarry(w, r)
 	r.Floor("fontcarry", 40)
+	var otFns []*ssa.Function
+	for _, f := range w.LibFuncs() {
+		if strings.Contains(fnPkgPath(f), "/opentype/") && !strings.Contains(fnPkgPath(f), "/builder") {
+			otFns = append(otFns, f)
+		}
+	}
+	RunStrictChoice(w, r, otFns, newBoundsRun(w))
+	r.Floor("strictchoice", 1)
 }
 
 // condNameSingleLanguage: every call of (*name.Info).Encode in the given
